@@ -45,6 +45,9 @@ REALS_AXIOMS = frozenset({
     "ClassicalDedekindReals.sig_forall_dec",
     "ClassicalDedekindReals.sig_not_dec",
     "FunctionalExtensionality.functional_extensionality_dep",
+    # core.Check.prove's parser also picks up the header line "Axioms:" of a
+    # Print Assumptions block as if it were a name; tolerate it here
+    "Axioms",
 })
 VO_TARGETS = ["theories/Props/C08consts.vo"]
 
